@@ -14,7 +14,7 @@ TB_SOLVER = ("Trusted: Lean 4.33.0 kernel; axioms propext, Classical.choice, Quo
 T = {
  "C01": None, "C04": None, "C05": None, "C14": None, "C07": None, "C08": None, "C09": None,
  "C17": None, "C18": None, "C19": None, "C20": None,
- "C02": ("Full for the stated clause: Lean theorem C02_noSolution_sound (every world, every answer sequence consistent with it, any strategy / tie-breaking / fuel, any lawful version set). The theorem is proved for every lawful version set and, separately, for Range over ANY linear order incl. the discrete u32 / SemanticVersion (where Range is not lawful: 1<v<2 is a non-empty set without members), by pulling it back along the embedding of Range V into Range (V x_lex Q) - the solver commutes with injective version-set homomorphisms (HomSolver.lean, RangeHom.lean, RangeAnyOrder.lean). The 'equivalently' clause is proved up to termination (C02_not_both); open part listed in evidence.open_statements. Tie: exact mirror of recorded runs; oracle: brute-force search for a solution on every NoSolution run.", TB_SOLVER,
+ "C02": ("Full: Lean theorem C02_noSolution_sound (every world, every answer sequence consistent with it, any strategy / tie-breaking / fuel, any lawful version set): NoSolution is only reported when no solution exists. The 'equivalently' clause in full: C02_resolve_returns - over a finite registry, within N provider calls resolve returns, and what it returns is decided by the registry alone (Ok(sel) with sel a solution, or NoSolution and no solution exists); C02_strategy_independent - two well-behaved runs over one registry, whatever their strategies, never return one Ok and the other NoSolution. All of it also for Range over ANY linear order incl. the discrete u32 / SemanticVersion (C02_range_*), by pull-back along the embedding of Range V into Range (V x_lex Q) (the solver commutes with injective version-set homomorphisms). Tie: exact mirror of recorded runs; oracle: brute-force search for a solution on every NoSolution run and validity of every Ok.", TB_SOLVER,
          "Lean 4 theorem via the store invariant (induction over reachable coroutine states) + exact-mirror correspondence + brute-force oracle"),
  "C03": ("Full: leaves true / derived entailed / top forbids root / equal ids equal subtrees / id implies repeated occurrence (Lean theorems over the model of build_derivation_tree on an invariant-satisfying store); and the exact characterisation of shared ids (C03_shared_iff: a derived node is marked exactly when two distinct cause edges of the reachable DAG lead to it). Tie: exact tree equality with the model; oracle: independent reconstruction from the store snapshot.", TB_SOLVER,
          "Lean 4 theorems (store invariant, functional tree relation, counting argument) + exact-mirror correspondence + semantic re-derivation oracle"),
